@@ -106,11 +106,11 @@ class Axi2ClkFSM(py4hw.Logic):
     def clock(self):
         if (self.state == 0): # IDLE
             self.load_outs.prepare(0)
+            self.clk_count.prepare(0) # every run starts counting from zero
             if (self.active_handshake.get()):
                 self.state = 1 # RUNNING_LOW
                 self.target = self.clk_target.get() 
             else:
-                self.clk_count.prepare(0)
                 self.clk_out.prepare(0)
         elif (self.state == 1): # RUNNING_LOW
             self.state = 2 # RUNNIN_HIGH
